@@ -122,4 +122,10 @@ CLAIMED['C14'] = dict(
     technique='inductive frame lemma decided by CrossHair-engine symbolic execution (symbolic integer ranges) and z3-enumerated operation instances/pairs with deep structural snapshots',
     design='5 C14')
 
+CLAIMED['C08'] = dict(
+    text=BMC + 'C08: from_measure/to_measure are symbolic integers (assumed 1 <= a <= b <= M) over solver-enumerated score shapes of the claimed core (2-4 measures, four signature sets with per-spine clefs / key / meter / meter symbol, 1-2 kern spines, optional text spine filtered out, split + join and NESTED split with stepwise join inside a measure, spine content notes / chords only / rests, final barline); every excerpt must be accepted by the reference spine-path model (header line first, cell counts consistent with the operators, every spine terminated), re-import without errors, and every note / chord / rest of the re-imported excerpt must be governed (last_signature_nodes) by the same clef, key and time signature as in the full score and as the text-level model says. The three classes the property tracks (mid-score signature change - holds on this tree; excerpt starting inside an open split; non-kern spines in the excerpt) are separate obligations with open known findings.',
+    note=NOTE + 'Two open known findings (excerpt starting inside a split; non-kern spines kept in the excerpt), as anticipated by the property.',
+    technique='CrossHair-engine symbolic execution of the from_measure reconstruction block of export_string with symbolic measure range over z3-enumerated shapes; spine-path model as well-formedness validator; text-level signature model',
+    design='5 C08')
+
 PENDING_REASON = 'check under construction in this session (to be claimed; see DESIGN.md section 5)'
